@@ -55,6 +55,18 @@ MUTANTS = [
     ("setup_input_blocking", "reproc.c", "  r = pipe_nonblocking(*pipe, true);\n  if (r < 0) {\n    return r;\n  }\n", "", "setup_input", "C17/os.write.input_nonblocking"),
     ("setup_input_restarts", "reproc.c", "r = pipe_write(*pipe, data + written, size - written);", "r = pipe_write(*pipe, data, size - written);", "setup_input", "C02/os.write.input_cursor"),
     ("setup_input_keeps_stdin_open", "reproc.c", "  *pipe = pipe_destroy(*pipe);\n\n  return 0;\n}\n\nstatic int expiry", "  return 0;\n}\n\nstatic int expiry", "setup_input", "C02/setup_input.stdin_closed_after_input"),
+    ("win_join_forgets_separator_size", "process.windows.c", "      joined_size++; // Count whitespace.", "      ;", "win_argv_join", "C18/argv_join.buffer_has_room_for_every_argument"),
+    ("win_quote_size_undercounts_backslashes", "process.windows.c", "      size += num_backslashes * 2 + 2;", "      size += num_backslashes * 2 + 1;", "win_argument_quoting", "C18/quote.bytes_written_equal_predicted_size"),
+    ("win_quote_odd_backslashes", "process.windows.c", "      memset(dest, '\\\\', num_backslashes * 2 + 1);\n      dest += num_backslashes * 2 + 1;", "      memset(dest, '\\\\', num_backslashes * 2);\n      dest += num_backslashes * 2;", "win_argument_quoting", "C18/quote.argument_survives_standard_parsing"),
+    ("win_env_size_forgets_terminator", "process.windows.c", "    joined_size += strlen(env[i]) + 1; // Count the NUL terminator.", "    joined_size += strlen(env[i]);", "win_env_block", "C18/env_join_size.entries_plus_terminators_plus_final_nul"),
+    ("poll_source_without_deadline_displaces", "reproc.c", "    if (process == NULL || process->deadline == REPROC_INFINITE) {", "    if (process == NULL) {", "find_earliest_deadline", "C08/poll.find_earliest.earliest_absolute_deadline_whatever_the_order"),
+    ("strv_concat_drops_last_extra", "strv.c", "  STRV_FOREACH(j, b) {\n    r[c] = str_dup(*j);", "  STRV_FOREACH(j, b) {\n    if (j[1] == NULL) { size--; break; }\n    r[c] = str_dup(*j);", "strv_concat", "C03/strv_concat.parent_entries_then_extra_entries_copied_byte_for_byte"),
+    ("strv_concat_leaks_on_failure", "strv.c", "    STRV_FOREACH(i, r) {\n      free(*i);\n    }\n\n    free(r);\n\n    return NULL;", "    free(r);\n\n    return NULL;", "strv_concat", "__CPROVER__start.memory-leak.1"),
+    ("sink_string_no_terminator", "drain.c", "  (*string)[string_size + size] = '\\0';", "  ;", "sink_string", "C16/sink_string.nul_terminated"),
+    ("sink_string_loses_output_on_enomem", "drain.c", "  if (r == NULL) {\n    return REPROC_ENOMEM;\n  }", "  if (r == NULL) {\n    free(*string);\n    *string = NULL;\n    return REPROC_ENOMEM;\n  }", "sink_string", "C16/sink_string.allocation_failure_keeps_previous_output"),
+    ("run_skips_destroy_on_start_failure", "run.c", "  r = reproc_start(process, argv, options);\n  if (r < 0) {\n    goto finish;\n  }", "  r = reproc_start(process, argv, options);\n  if (r < 0) {\n    return r;\n  }", "reproc_run_ex", "C05+C16/run.destroy_is_last_and_exactly_once"),
+    ("run_ignores_drain_error", "run.c", "  r = reproc_drain(process, out, err);\n  if (r < 0) {\n    goto finish;\n  }", "  r = reproc_drain(process, out, err);", "reproc_run_ex", "C16/run.stop_after_successful_drain"),
+    ("path_relative_accepts_plain_name", "process.posix.c", "strchr(path + 1, '/') != NULL", "1", "path_is_relative", "C03/path_is_relative.non_empty_not_absolute_with_directory_component"),
     ("read_wrong_stream", "reproc.c", "pipe_type *pipe = stream == REPROC_STREAM_OUT ? &process->pipe.out\n                                                : &process->pipe.err;", "pipe_type *pipe = stream == REPROC_STREAM_OUT ? &process->pipe.err\n                                                : &process->pipe.out;", "reproc_read", "C02/reproc_read.one_read_on_that_stream"),
     ("read_epipe_not_sticky", "reproc.c", "  if (r == REPROC_EPIPE) {\n    *pipe = pipe_destroy(*pipe);\n  }", "  if (r == REPROC_EPIPE) {\n    pipe_destroy(*pipe);\n  }", "reproc_read", "C02/reproc_read.epipe_is_sticky"),
     ("close_not_idempotent", "reproc.c", "      process->pipe.in = pipe_destroy(process->pipe.in);\n      return 0;", "      pipe_destroy(process->pipe.in);\n      return 0;", "reproc_close", "C02+C14/reproc_close.closes_exactly_that_stream"),
@@ -77,6 +89,8 @@ def one(m, keep=False):
         defs = ["-DVERIF_EXCLUDE_D10", "-DVERIF_EXCLUDE_D11", "-DVERIF_EXCLUDE_D15"]
         r = subprocess.run([os.path.join(VERIF, "verif"), "harness", harness] + defs, capture_output=True, text=True, env=env)
         refuted = [l.split()[1] for l in r.stdout.splitlines() if l.strip().startswith("FAILURE") and "canary/" not in l and "reach/" not in l]
+        if "NO-VERDICT" in r.stdout and label not in refuted:
+            return name, "NO-VERDICT", r.stdout[-300:]
         if label in refuted:
             return name, "caught", ", ".join(refuted)
         return name, "MISSED", "refuted: %s | %s" % (refuted, r.stdout[-400:])
